@@ -57,6 +57,14 @@ class HarnessError(Exception):
     """The harness (not the code under test) is wrong, e.g. an unplanned suspend."""
 
 
+def seam_check(e):
+    """AttributeError for a private name of the library = the harness reaches for a helper that a refactoring removed"""
+    if isinstance(e, AttributeError):
+        m = str(e)
+        if "has no attribute '_" in m and ("module" in m or "object has no attribute" in m or "type object" in m):
+            raise HarnessError("seam missing: " + m)
+
+
 def drive(coro):
     """Run a coroutine whose awaits never suspend (rule R5)."""
     try:
